@@ -44,6 +44,18 @@ CASES = [
         ('t.dump', lambda e: e['cells'].append([1, 1]) if [1, 1] not in e['cells'] else e['cells'].remove([1, 1]), 'one cell flipped in the independently read text'),
         ('t.load', lambda e: e['objs'].reverse() if len(e['objs']) > 1 else e.update(eq=False), 'loaded objects reordered / unequal'),
     ]),
+    # replayed behaviours of SessionSys.tla ({sessions} = file written by TLC's simulator)
+    ('rec_session_worker.py', ['--prop', 'C11', '--emit', 'flags', '--cases', '{sessions}', '--shard', '0', '--nshards', '40'],
+     'TraceSession', 'TraceSession.cfg', [
+        ('s.step', lambda e: e['flags'][0].__setitem__(1, not e['flags'][0][1]) if e['flags'] else None, 'lazy flag of one live handle flipped'),
+        ('s.step', lambda e: e['flags'].pop() if len(e['flags']) > 1 else None, 'one live handle missing from the observation'),
+        ('s.obs', lambda e: e.update(obs='0' * 40), 'observation digest of a dropped handle changed'),
+    ]),
+    ('rec_session_worker.py', ['--prop', 'C05', '--emit', 'ctx', '--cases', '{sessions}', '--shard', '0', '--nshards', '40'],
+     'TraceCtx', 'TraceCtx.cfg', [
+        ('neighbors', lambda e: e['res'].pop() if e['res'] else None, 'one upper cover dropped from a query inside a session'),
+        ('lattice.links', lambda e: next((u.pop() for u in e['up'] if u), None), 'one neighbour link dropped inside a session'),
+    ]),
 ]
 
 
@@ -51,7 +63,9 @@ def main():
     work = common.scratch_dir('corrupt')
     ok = bad = 0
     try:
+        sessions = common.session_hists(work, 'quick', 0)[0]
         for worker, args, module, cfg, corruptions in CASES:
+            args = [x.replace('{sessions}', sessions) for x in args]
             src = os.path.join(work, 'orig.ndjson')
             common.run_py([worker] + args + ['--out', src])
             events = [json.loads(x) for x in open(src, encoding='utf-8')]
